@@ -9,6 +9,6 @@ CONSTANTS
   MaxTicks = 3
   Weaken = "none"
   StopRoles <- NoRoles
-INVARIANTS TypeOK Fidelity NoSilentCorruption NoFalseSuccess CleanRunSucceeds
+INVARIANTS TypeOK ClaimsAll Fidelity NoSilentCorruption NoFalseSuccess CleanRunSucceeds
 PROPERTIES Termination
 CHECK_DEADLOCK FALSE
